@@ -370,6 +370,28 @@ async fn run_case(dir: &std::path::Path, case: &Value) -> Vec<Value> {
                            "lm1": lm1, "mt_s": mt.0, "mt_ns": mt.1, "size": size,
                            "etag": etag_facts(&r1.headers().get("etag").cloned())}));
         }
+        "fresh" => {
+            // the file's modification time is "now": instances opened at once, and again after a wait,
+            // on the unmodified file
+            let size = case["size"].as_u64().unwrap_or(20);
+            std::fs::write(&p, content(size)).expect("write file");
+            for round in 0..3 {
+                if round == 2 {
+                    std::thread::sleep(std::time::Duration::from_millis(case["wait_ms"].as_u64().unwrap_or(1100)));
+                }
+                let f = std::fs::File::open(&p).unwrap();
+                let meta = f.metadata().unwrap();
+                match catch(|| Crf::new(f, http::HeaderMap::new())) {
+                    Ok(Ok(crf)) => {
+                        let (ls, lns) = crf.last_modified().map(secs_ns).unwrap_or((-1, 0));
+                        ev.push(json!({"ev": "fver", "op": "open", "ver": ver_of(&meta), "etag": crf_etag(&crf),
+                                       "len": limbs(crf.len()), "flen": limbs(meta.len()), "lm_s": ls, "lm_ns": lns,
+                                       "mt_s": meta.mtime(), "mt_ns": meta.mtime_nsec()}));
+                    }
+                    _ => ev.push(json!({"ev": "fver", "op": "open", "ver": ver_of(&meta), "etag": {"k": "error"}})),
+                }
+            }
+        }
         "history" => {
             // a sequence of file-system operations on one path; after each, open and record
             // (version, etag)
